@@ -4,15 +4,15 @@ From Coq Require Import List ZArith Bool Arith Lia.
 Import ListNotations.
 Require Import Verif.gen.Consts_trie Verif.MapTrieModel Verif.MapTrieSpec Verif.MapTrieProofs Verif.MapTrieProofs2.
 
-Definition kvr (c : core) := (c_key c, c_val c, c_rc c).
+Definition kvr (c : core) := (c_key c, c_val c, c_rc c, c_rem c).
 
 Lemma upd_any : forall p n g,
-  (forall i, n_key (g i) = n_key i /\ n_val (g i) = n_val i /\ n_rc (g i) = n_rc i) ->
+  (forall i, n_key (g i) = n_key i /\ n_val (g i) = n_val i /\ n_rc (g i) = n_rc i /\ n_removed (g i) = n_removed i) ->
   forall q, kvr (obs_t (upd_t n p g) q) = kvr (obs_t n q).
 Proof.
   induction p; intros n g Hg q; destruct n as [i seg f]; cbn [upd_t obs_t].
   - destruct (strip seg q 0); auto. destruct (sc <? length seg); auto.
-    destruct (Hg i) as [A [B C]]. unfold kvr, core_of. simpl. rewrite A, B, C. reflexivity.
+    destruct (Hg i) as [A [B [C D]]]. unfold kvr, core_of. simpl. rewrite A, B, C, D. reflexivity.
   - destruct (strip seg q 0); auto. rewrite upd_f_fget. rewrite !obs_f_fget.
     destruct (fget f a) as [t|] eqn:G; auto.
     pose proof (fget_some_lt _ _ _ G) as Hlt.
@@ -35,31 +35,30 @@ Lemma inv_same_obs : forall t d r, Inv t d -> all_t wfi r -> t_seg r = [] ->
 Proof.
   intros t d r HI W S O nid its. destruct HI as [Hwf Hhdr Hobs Hlen Hnd].
   constructor; simpl; auto.
-  intros q Hq. pose proof (O q) as X. unfold kvr in X. inversion X as [[X1 X2 X3]]. rewrite X2, X3. apply Hobs; auto.
+  intros q Hq. pose proof (O q) as X. unfold kvr in X. inversion X as [[X1 X2 X3 X4]]. rewrite X2, X3, X4. apply Hobs; auto.
 Qed.
 
 Definition okvalid (k : option key) : Prop := match k with Some kk => kvalid kk | None => True end.
 
-Lemma wfi_nots : forall i s l, wfi i s ->
-  wfi {| n_id := n_id i; n_key := n_key i; n_val := n_val i; n_rc := n_rc i; n_nots := l |} s.
+Lemma wfi_nots : forall i s l, wfi i s -> wfi (set_nots l i) s.
 Proof. unfold wfi. simpl. auto. Qed.
 
-Lemma notify_add_inv : forall t d k fn ev ud, Inv t d -> okvalid k -> Inv (fst (do_notify_add t k fn ev ud)) d.
+Lemma notify_add_inv : forall fx t d k fn ev ud, Inv t d -> okvalid k -> Inv (fst (do_notify_add fx t k fn ev ud)) d.
 Proof.
-  intros t d k fn ev ud HI Hk. unfold do_notify_add.
+  intros fx t d k fn ev ud HI Hk. unfold do_notify_add.
   destruct ((match k with Some _ => true | None => false end) && has ev TRIE_NOTIFY_FREE); [exact HI|].
   assert (X : exists r1 p nid, (match k with
       | Some kk => match lookup (t_root t) kk true with
                    | Some p => (t_root t, p, t_next t)
-                   | None => ins_t (t_root t) kk true (t_next t)
+                   | None => ins_t fx (t_root t) kk true (t_next t)
                    end
       | None => (t_root t, [], t_next t) end) = (r1, p, nid) /\ all_t wfi r1 /\ t_seg r1 = [] /\
       (forall q, obs_t r1 q = obs_t (t_root t) q)).
   { destruct k as [kk|].
     - destruct (lookup (t_root t) kk true).
       + do 3 eexists. split; [reflexivity|]. destruct HI; auto.
-      + destruct (ins_t (t_root t) kk true (t_next t)) as [[r1 p] nid] eqn:I. destruct Hk as [Hne Hnz].
-        destruct (ins_ok _ _ (le_n _) _ _ _ _ _ _ (inv_wf _ _ HI) Hnz I) as [O1 [L1 W1]].
+      + destruct (ins_t fx (t_root t) kk true (t_next t)) as [[r1 p] nid] eqn:I. destruct Hk as [Hne Hnz].
+        destruct (ins_ok fx _ _ (le_n _) _ _ _ _ _ _ (inv_wf _ _ HI) Hnz I) as [O1 [L1 W1]].
         do 3 eexists. split; [reflexivity|]. split; auto. split; auto.
         pose proof (inv_hdr _ _ HI) as Hh. destruct (t_root t) as [i0 s0 f0]. simpl in Hh. subst s0. eapply hdr_ins; eauto.
     - do 3 eexists. split; [reflexivity|]. destruct HI; auto. }
@@ -120,35 +119,35 @@ Fixpoint dict_outs (hs : list hop) (os : list out) : list out :=
   | _, _ => []
   end.
 
-Lemma run_refines_notify : forall hs t d, Inv t d -> Forall hop_valid hs ->
-  exists outs t', run true t (map hop_op hs) = (outs, Ok t') /\
+Lemma run_refines_notify : forall fx hs t d, f_rm fx = true -> Inv t d -> Forall hop_valid hs ->
+  exists outs t', run fx t (map hop_op hs) = (outs, Ok t') /\
                   dict_outs hs (map fst outs) = fst (spec_run d (dict_part hs)) /\ Inv t' (snd (spec_run d (dict_part hs))).
 Proof.
-  induction hs as [|h hs]; intros t d HI Hv; simpl.
+  intro fx. induction hs as [|h hs]; intros t d Hfx HI Hv; simpl.
   - exists [], t. auto.
   - inversion Hv; subst. destruct h as [o|k fn e ud|k fn e|k fn e ud]; simpl.
-    + destruct (step_refines t d o HI H1) as [t' [evs [S I']]]. simpl in S. rewrite S.
+    + destruct (step_refines fx t d o Hfx HI H1) as [t' [evs [S I']]]. simpl in S. rewrite S.
       destruct (spec_step d o) as [d' r]. simpl in *.
-      destruct (IHhs t' d' I' H2) as [outs [t'' [R [M I'']]]]. rewrite R.
+      destruct (IHhs t' d' Hfx I' H2) as [outs [t'' [R [M I'']]]]. rewrite R.
       destruct (spec_run d' (dict_part hs)) as [souts fin]. simpl in *.
       exists ((r, evs) :: outs), t''. simpl. rewrite M. auto.
-    + pose proof (notify_add_inv t d k fn e ud HI H1) as I'.
-      destruct (do_notify_add t k fn e ud) as [t' z]. simpl in I'.
-      destruct (IHhs t' d I' H2) as [outs [t'' [R [M I'']]]]. rewrite R.
+    + pose proof (notify_add_inv fx t d k fn e ud HI H1) as I'.
+      destruct (do_notify_add fx t k fn e ud) as [t' z]. simpl in I'.
+      destruct (IHhs t' d Hfx I' H2) as [outs [t'' [R [M I'']]]]. rewrite R.
       exists ((RInt z, []) :: outs), t''. simpl. auto.
     + pose proof (notify_del_inv t d k fn e false 0 HI) as I'.
       destruct (do_notify_del t k fn e false 0) as [t' z]. simpl in I'.
-      destruct (IHhs t' d I' H2) as [outs [t'' [R [M I'']]]]. rewrite R.
+      destruct (IHhs t' d Hfx I' H2) as [outs [t'' [R [M I'']]]]. rewrite R.
       exists ((RInt z, []) :: outs), t''. simpl. auto.
     + pose proof (notify_del_inv t d k fn e true ud HI) as I'.
       destruct (do_notify_del t k fn e true ud) as [t' z]. simpl in I'.
-      destruct (IHhs t' d I' H2) as [outs [t'' [R [M I'']]]]. rewrite R.
+      destruct (IHhs t' d Hfx I' H2) as [outs [t'' [R [M I'']]]]. rewrite R.
       exists ((RInt z, []) :: outs), t''. simpl. auto.
 Qed.
 
-Theorem trie_refines_dict_with_notifiers : forall hs, Forall hop_valid hs ->
-  exists outs t', run true trie_init (map hop_op hs) = (outs, Ok t') /\
+Theorem trie_refines_dict_with_notifiers : forall fx hs, f_rm fx = true -> Forall hop_valid hs ->
+  exists outs t', run fx trie_init (map hop_op hs) = (outs, Ok t') /\
                   dict_outs hs (map fst outs) = fst (spec_run [] (dict_part hs)).
 Proof.
-  intros hs Hv. destruct (run_refines_notify hs trie_init [] inv_init Hv) as [outs [t' [R [M _]]]]. eauto.
+  intros fx hs Hfx Hv. destruct (run_refines_notify fx hs trie_init [] Hfx inv_init Hv) as [outs [t' [R [M _]]]]. eauto.
 Qed.
